@@ -135,6 +135,9 @@ func c15Cases(c *ctx) []c15Case {
 	add("two-levels", "grammar g;\n@left \"a\" \"b\" \"c\"\n@right \"a\" \"b\" \"c\"\n@none \"c\" \"b\"\nstart = \"a\" \"b\" \"c\";\n")
 	add("lalr-conflicts", "grammar g;\nstart = e;\ne = e \"+\" e | e \"*\" e | e \"-\" e | e \"/\" e | \"!\" e | e \"?\" e \":\" e | \"n\" ;\n")
 	add("lalr-conflicts-partial", "grammar g;\n@left \"*\" \"/\"\nstart = e;\ne = e \"+\" e | e \"*\" e | e \"-\" e | e \"/\" e | \"(\" e \")\" | \"n\" | s;\ns = \"if\" e s | \"if\" e s \"else\" s | \"x\";\n")
+	add("undefined-nonterminals-only", "grammar g;\nstart = alpha beta gamma delta | epsilon zeta eta theta | iota kappa;\n")
+	add("undefined-nonterminals-in-handles", "grammar g;\n@left <start = start lambda mu>\n@right <start = nu xi>\nstart = \"a\" omicron | pi rho;\n")
+	add("shared-handles-in-levels", "grammar g;\n@left \"a\" \"b\" \"c\" \"d\" \"e\" <start = start \"a\"> <start = start \"b\">\n@right \"e\" \"d\" \"c\" \"b\" \"a\" <start = start \"b\"> <start = start \"a\">\nstart = start \"a\" | start \"b\" | \"c\" | \"d\" | \"e\";\n")
 	add("no-start", "grammar g;\na = b; b = c; c = \"x\";\n")
 	r := c.rng("gen")
 	for i := 0; i < c.n(12, 150); i++ {
